@@ -10,6 +10,9 @@ fn main() {
         if m % 4099 == 0 { let v = f32::from_bits(bits); let mut b = [0u8; 64]; let s = lexical_write_float::ToLexical::to_lexical(v, &mut b); let t = format!("{v:?}"); if s != t.as_bytes() { bad += 1; println!("differs from std: {t}"); } }
     }
     println!("f32 [1,2): bad = {bad} (in the low12 domain: {bad_low}, in the high12 domain: {bad_high})");
+    for be in 152u32..=254 { if let Err(e) = shorter_interval_f32(be) { bad += 1; println!("2^{}: {e}", be - 127); } }
+    for be in 1077u64..=1150 { if let Err(e) = shorter_interval_f64(be) { bad += 1; println!("f64 2^{}: {e}", be - 1023); } }
+    for be in 57u32..=126 { if let Err(e) = shorter_interval_f32_neg(be) { bad += 1; println!("f32 2^-{}: {e}", 127 - be); } }
     let mut x = 0x9E3779B97F4A7C15u64;
     for i in 0..20_000_000u64 {
         x ^= x << 13; x ^= x >> 7; x ^= x << 17;
